@@ -1,6 +1,7 @@
 from __future__ import annotations
 
 import functools
+import itertools
 import re
 import sys
 
@@ -332,7 +333,9 @@ def normalize_python_version_markers(  # NOSONAR
 ) -> str:
     ors = []
     for or_ in disjunction:
-        ands = []
+        # one list of alternatives per clause: "in" contributes several,
+        # which have to be distributed over the other clauses of the conjunction
+        ands: list[list[str]] = []
         for op, version in or_:
             # Expand python version
             if op == "==" and "*" not in version and version.count(".") < 2:
@@ -386,13 +389,15 @@ def normalize_python_version_markers(  # NOSONAR
                     versions.append(op_ + ".".join(split))
 
                 if versions:
-                    glue = " || " if op == "in" else ", "
-                    ands.append(glue.join(versions))
+                    if op == "in":
+                        ands.append(versions)
+                    else:
+                        ands.append([", ".join(versions)])
 
                 continue
 
-            ands.append(f"{op}{version}")
+            ands.append([f"{op}{version}"])
 
-        ors.append(" ".join(ands))
+        ors.extend(" ".join(combo) for combo in itertools.product(*ands))
 
     return " || ".join(ors)
